@@ -197,6 +197,13 @@ func stream(c *Case, rng *rand.Rand) (frames [][]byte, err error) {
 		}
 		// (the largest legal write requests - 257..259 byte frames - stay in: FC16 up to 123 registers, FC15 up to 1968
 		// coils, FC23 up to 121 written registers are what LegalReq draws at most)
+		if fc <= 4 && len(c.FCs) > 1 && c.Kind != "all" && rng.Intn(10) == 0 {
+			// a read request whose body is cut short under a header that says so (length field 3 or 4): complete as a
+			// frame, refused as a request - answered with an exception, once, and what follows it is still served
+			full := q.Encode(specref.TCP)
+			frames = append(frames, specref.Frame(specref.TCP, q.TID, q.Unit, full[7:9+rng.Intn(2)]))
+			continue
+		}
 		if fc <= 4 && len(c.FCs) > 1 && c.Kind != "all" && rng.Intn(8) == 0 {
 			// a read request the parser refuses (quantity 0): it is answered with an exception - once - and whatever
 			// follows it in the same read is still served
@@ -274,6 +281,9 @@ func refReplies(c *Case, frames [][]byte) [][]byte {
 	for _, f := range frames {
 		rep := dev.Serve(specref.TCP, f)
 		if len(f) == 12 && f[7] >= 1 && f[7] <= 4 && f[10] == 0 && f[11] == 0 { // quantity 0: illegal data value, addressed to the request
+			rep = []byte{f[0], f[1], 0, 0, 0, 3, f[6], f[7] | 0x80, 3}
+		}
+		if (len(f) == 9 || len(f) == 10) && f[7] >= 1 && f[7] <= 4 && int(f[4])<<8|int(f[5]) == len(f)-6 { // truncated body: illegal data value
 			rep = []byte{f[0], f[1], 0, 0, 0, 3, f[6], f[7] | 0x80, 3}
 		}
 		if rep == nil && len(f) >= 9 && !specref.Supported(f[7]) { // unsupported function: exception 01 addressed to the request
